@@ -13,21 +13,21 @@ structure VertexInput where
   fields : List (Nat × Member)
   deriving Repr, Inhabited
 
-/-- `fragment_target_count` -/
+/-- `fragment_target_count`: largest written location plus one -/
 def fragmentTargetCount (m : Module) (f : Fn) : Nat :=
   match f.result with
   | some (ty, b) =>
     match b with
-    | some (.location _) => 1
+    | some (.location l) => l + 1
     | some (.builtin _) => 0
     | none =>
       match m.types[ty]? with
       | some t =>
         match t.inner with
         | .struct members _ =>
-          (members.filter fun mem => match mem.binding with
-            | some (.location _) => true
-            | _ => false).length
+          (members.filterMap fun mem => match mem.binding with
+            | some (.location l) => some (l + 1)
+            | _ => none).foldl max 0
         | _ => 0
       | none => 0
   | none => 0
@@ -47,20 +47,21 @@ def locatedMembers : List Member → G (List (Nat × Member))
       let r ← locatedMembers rest
       pure ((l, mem) :: r)
 
+/-- the `filter_map` closure of `vertex_entry_structs` -/
+def vertexInputOf (m : Module) (a : Nat × Option Binding) : G (Option VertexInput) :=
+  match m.types[a.1]? with
+  | some ty =>
+    match ty.inner with
+    | .struct members _ => do
+      let name ← unwrapName "struct-name" ty.name
+      let fields ← locatedMembers members
+      pure (some { ty := a.1, name := name, snake := ty.snake, fields := fields })
+    | _ => pure none
+  | none => .error (.panic "bad-handle")
+
 /-- `vertex_entry_structs` -/
 def vertexEntryStructs (m : Module) (e : EntryPoint) : G (List VertexInput) :=
-  (e.fn.args.filter fun a => a.2.isNone).filterMapM fun a =>
-    match m.types[a.1]? with
-    | some ty =>
-      match ty.inner with
-      | .struct members _ => do
-        let name ← match ty.name with
-          | some n => pure n
-          | none => .error (.panic "unwrap:struct-name")
-        let fields ← locatedMembers members
-        pure (some { ty := a.1, name := name, snake := ty.snake, fields := fields })
-      | _ => pure none
-    | none => .error (.panic "bad-handle")
+  (e.fn.args.filter fun a => a.2.isNone).filterMapM (vertexInputOf m)
 
 /-- `dedup_by_key(|s| s.name)`: drop an element whose key equals the previous kept one -/
 def dedupByName : List VertexInput → List VertexInput
@@ -80,9 +81,7 @@ def vertexStructMethods (m : Module) : G (List RVertex) := do
   let inputs ← getVertexInputStructs m
   inputs.mapM fun inp => do
     let attrs ← inp.fields.mapM fun (lm : Nat × Member) => do
-      let fname ← match lm.2.name with
-        | some n => pure n
-        | none => .error (.panic "unwrap:member-name")
+      let fname ← unwrapName "member-name" lm.2.name
       let ty ← match m.types[lm.2.ty]? with
         | some t => pure t
         | none => .error (.panic "bad-handle")
